@@ -9,6 +9,7 @@ mod c01;
 mod c02;
 mod c03;
 mod c08;
+mod c14;
 mod c15;
 mod c16;
 mod c18;
@@ -32,6 +33,8 @@ fn main() {
         "c18-replay" => c18::replay(rest),
         "c18-parse" => c18::parse(rest),
         "c16-queue" => c16::queue(rest),
+        "c14-drive" => c14::drive(rest),
+        "c14-replay" => c14::replay(),
         "c15-replay" => c15::replay(rest),
         "c08-replay" => c08::replay(),
         _ => {
